@@ -4,6 +4,7 @@ import (
 	"bytes"
 	"crypto"
 	stded "crypto/ed25519"
+	"crypto/rsa"
 	"crypto/sha512"
 	"encoding/hex"
 	"fmt"
@@ -60,7 +61,18 @@ func init() {
 		k, m := unhx(a[0]), unhx(a[1])
 		var hf int
 		fmt.Sscan(a[2], &hf)
-		s, err := ed25519.PrivateKey(k).Sign(nil, m, crypto.Hash(hf))
+		// hf = 1000*kind + hash id: the SAME HashFunc() value behind different dynamic types of crypto.SignerOpts (the
+		// refusal of pre-hashed input must depend on opts.HashFunc() only; seeded change C07-d)
+		var opts crypto.SignerOpts = crypto.Hash(hf % 1000)
+		switch hf / 1000 {
+		case 1:
+			opts = customOpts{crypto.Hash(hf % 1000)}
+		case 2:
+			opts = &rsa.PSSOptions{Hash: crypto.Hash(hf % 1000)}
+		case 3:
+			opts = &stded.Options{Hash: crypto.Hash(hf % 1000)}
+		}
+		s, err := ed25519.PrivateKey(k).Sign(nil, m, opts)
 		if err != nil {
 			return "err"
 		}
@@ -120,6 +132,11 @@ func init() {
 	gens["C07"] = genC07
 	gens["C18"] = genC18
 }
+
+// customOpts is a crypto.SignerOpts that is not a crypto.Hash
+type customOpts struct{ h crypto.Hash }
+
+func (o customOpts) HashFunc() crypto.Hash { return o.h }
 
 var smallOrder = []string{
 	"0100000000000000000000000000000000000000000000000000000000000000",
@@ -358,6 +375,34 @@ func genC01(g *G) {
 		emit(priv[32:], m, append(append([]byte(nil), x...), sig[32:]...))
 		emit(x, m, sig)
 	}
+	// the ACCEPTING counterparts (seeded change C01-d: k hashed over a re-encoding of R): an honest key A = [a]B with
+	// the R half any small-order / non-canonical encoding E and S = H(E||A||m)·a — [8]R = 0, so the cofactored equation
+	// holds exactly when k is taken over the bytes E as given; and a small-order key E with R = [r]B, S = r (k is
+	// irrelevant: [8][k]A = 0). Also with the honest key shifted by a torsion point.
+	for i, e := range smallOrder {
+		x, _ := hex.DecodeString(e)
+		seed := g.r.bytes(32)
+		m := g.r.bytes(g.r.intn(40))
+		h := sha512.Sum512(seed)
+		a, _ := edwards25519.NewScalar().SetBytesWithClamping(h[:32])
+		A := new(edwards25519.Point).ScalarBaseMult(a)
+		if i%2 == 1 {
+			A.Add(A, mustPoint(smallOrder[4+g.r.intn(4)]))
+		}
+		kh := sha512.New()
+		kh.Write(x)
+		kh.Write(A.Bytes())
+		kh.Write(m)
+		k, _ := edwards25519.NewScalar().SetUniformBytes(kh.Sum(nil))
+		S := edwards25519.NewScalar().Multiply(k, a)
+		emit(A.Bytes(), m, append(append([]byte(nil), x...), S.Bytes()...))
+		// one bit of the message changed: k changes, rejected
+		m2 := append(append([]byte(nil), m...), 1)
+		emit(A.Bytes(), m2, append(append([]byte(nil), x...), S.Bytes()...))
+		r, _ := edwards25519.NewScalar().SetUniformBytes(g.r.bytes(64))
+		R := new(edwards25519.Point).ScalarBaseMult(r)
+		emit(x, m, append(R.Bytes(), r.Bytes()...))
+	}
 	// random bytes; non-points
 	n := 50
 	if g.thorough {
@@ -391,6 +436,11 @@ func genC07(g *G) {
 		}
 		g.emit("ed.signer", hx(priv), hx(g.r.bytes(64)), "7") // crypto.SHA512: pre-hashed input refused
 		g.emit("ed.signer", hx(priv), hx(g.r.bytes(32)), "5")
+		// the same through other implementations of crypto.SignerOpts (a struct, *rsa.PSSOptions, *ed25519.Options)
+		kind := 1 + g.r.intn(3)
+		g.emit("ed.signer", hx(priv), hx(g.r.bytes(64)), fmt.Sprint(1000*kind+7))
+		g.emit("ed.signer", hx(priv), hx(g.r.bytes(32)), fmt.Sprint(1000*(1+g.r.intn(3))+5))
+		g.emit("ed.signer", hx(priv), hx(g.r.bytes(g.r.intn(80))), fmt.Sprint(1000*kind))
 	}
 	// long messages: buffer-size boundaries far beyond one hash block (thorough: EVERY length 0..2304)
 	{
